@@ -208,6 +208,48 @@ def _weave_fn(it, ctx, meta, modpath, in_trait_decl=False, degrade=False):
         mut_self = True
         htxt = htxt[:m.start()] + "(self" + htxt[m.end():]
         ctx.log.append({"rule": "R2", "file": ctx.cur_file, "line": it.line, "what": "mut self in %s" % key})
+    # R21: `x: impl Into<T>` in argument position -> named type parameter (Rust reference: argument-position impl Trait is
+    # sugar for an anonymous generic type parameter); gives the contract a name to say `call_ensures(<VpT1 as Into<T>>::into, ..)`
+    if has_body and re.search(r":\s*impl\s+Into\s*<", htxt):
+        names = []
+        def _r21(m_):
+            # find the matching '>' of Into< ... >
+            start = m_.end()
+            depth_, j_ = 1, start
+            while j_ < len(htxt) and depth_ > 0:
+                if htxt[j_] == "<":
+                    depth_ += 1
+                elif htxt[j_] == ">" and htxt[j_ - 1] != "-":
+                    depth_ -= 1
+                j_ += 1
+            return start, j_
+        out_h, pos_ = "", 0
+        for m_ in re.finditer(r":\s*impl\s+Into\s*<", htxt):
+            if m_.start() < pos_:
+                continue
+            st_, en_ = _r21(m_)
+            nm = "VpT%d" % (len(names) + 1)
+            names.append((nm, "Into<" + htxt[st_:en_]))
+            out_h += htxt[pos_:m_.start()] + ": " + nm
+            pos_ = en_
+        out_h += htxt[pos_:]
+        # add the type parameters to the fn's generics
+        mg = re.search(r"\bfn\s+\w+\s*(<)?", out_h)
+        decl = ", ".join("%s: %s" % (n_, b_) for n_, b_ in names)
+        if mg.group(1):
+            # existing generics: append before the closing '>' of the list
+            depth_, j_ = 1, mg.end()
+            while depth_ > 0:
+                if out_h[j_] == "<":
+                    depth_ += 1
+                elif out_h[j_] == ">" and out_h[j_ - 1] != "-":
+                    depth_ -= 1
+                j_ += 1
+            out_h = out_h[:j_ - 1] + ", " + decl + out_h[j_ - 1:]
+        else:
+            out_h = out_h[:mg.end()] + "<" + decl + ">" + out_h[mg.end():]
+        htxt = out_h
+        ctx.log.append({"rule": "R21", "file": ctx.cur_file, "line": it.line, "what": "impl Into<..> argument -> type parameter in %s" % key})
     # return value naming / type replacement
     if ent and not ent.ret and (ent.ensures or ent.prefix or ent.inserts) and "->" in htxt:
         ent.ret = "r"
